@@ -39,6 +39,7 @@ def main(tier: str) -> int:
     from thefittest.regressors import GeneticProgrammingRegressor, MLPEARegressor, GeneticProgrammingNeuralNetRegressor
     import thefittest.optimizers as O
     from thefittest.utils._metrics import root_mean_square_error, categorical_crossentropy
+    from thefittest.utils.random import numba_seed, random_sample
     rng = pyrandom.Random(chk.seed)
     ops, ctx = [], []
     seed = chk.seed + 21
@@ -178,6 +179,51 @@ def main(tier: str) -> int:
                      None if not hasattr(est2, "net_") else (est2.get_net()._connects.tolist(), est2.get_net()._weights.tolist()))
             if snap3 != snap:
                 chk.fail("two fits with the same random_state give different models", d, {**feats, "clause": "seed"})
+            # "all seeds": the falsy seed 0, with other random draws consumed between the two fits
+            snaps0 = []
+            for rep in range(2):
+                e0 = make().set_params(random_state=0)
+                e0.fit(X, y)
+                snaps0.append((str(e0.get_tree()) if hasattr(e0, "tree_") else None,
+                               None if not hasattr(e0, "net_") else (e0.get_net()._connects.tolist(), e0.get_net()._weights.tolist())))
+                numba_seed(977 + ci + chk.seed)
+                [random_sample(5, 3, True) for _ in range(3 + rep)]
+            chk.count("seed0_refit")
+            if snaps0[0] != snaps0[1]:
+                chk.fail("two fits with random_state=0 give different models (other draws in between)", {**d, "random_state": 0}, {**feats, "clause": "seed"})
+    # ---- GP classifier: the label of the arg-max column on rows whose two probabilities tie exactly
+    #      (stored trees that evaluate to 0 there: x0 - x1 on equal features, x0 on zeros, x0 * x1)
+    from thefittest.base._tree import init_symbolic_regression_uniset
+    from thefittest.base import Tree
+    for labels in (("b", "a"), (7, 3)):
+        Xg = np.array([[float(i), float(j)] for i in range(-2, 3) for j in range(-2, 3)])
+        yg = np.array([labels[0] if a - b > 0 else labels[1] for a, b in Xg], dtype=object if isinstance(labels[0], str) else np.int64)
+        estg = GeneticProgrammingClassifier(n_iter=2, pop_size=6, functional_set_names=("add", "sub", "mul"), random_state=seed)
+        estg.fit(Xg, yg)
+        us = init_symbolic_regression_uniset(X=Xg, functional_set_names=("add", "sub", "mul"))
+        by_name = {}
+        for nd in list(us._functional_set[2]) + list(us._terminal_set):
+            by_name.setdefault(str(nd._name if hasattr(nd, "_name") else nd), nd)
+        x0n, x1n = by_name.get("x0"), by_name.get("x1")
+        subn, muln = by_name.get("sub"), by_name.get("mul")
+        stored = [("fitted", estg.get_tree())]
+        if x0n is not None and x1n is not None and subn is not None:
+            stored += [("x0 - x1", Tree([subn, x0n, x1n])), ("x0", Tree([x0n])), ("x0 * x1", Tree([muln, x0n, x1n]))]
+        classes = sorted(set(yg.tolist()))
+        for tname, tr in stored:
+            estg.tree_ = tr
+            proba = estg.predict_proba(Xg)
+            pred = estg.predict(Xg)
+            ties = int(np.sum(proba[:, 0] == proba[:, 1]))
+            chk.count("gp_classifier_tie_rows", ties)
+            chk.case(("gp_tie", tname, str(labels)))
+            exp = [classes[int(np.argmax(r))] for r in proba]
+            if [str(v) for v in pred] != [str(v) for v in exp]:
+                bad = [i for i in range(len(exp)) if str(pred[i]) != str(exp[i])]
+                chk.fail("predict does not return the original class label of the arg-max column",
+                         {"estimator": "GPClassifier", "stored_tree": tname, "labels": [str(l) for l in labels], "row": Xg[bad[0]].tolist(),
+                          "proba": proba[bad[0]].tolist(), "predict": str(pred[bad[0]]), "expected": str(exp[bad[0]]), "tie_rows": ties},
+                         {"estimator": "GPClassifier", "clause": "labels"})
     # ---- reserved optimizer arguments are rejected, others accepted
     Xr, yr = E.data_regression(n=12, d=2, seed=seed)
     Xc, yc = E.data_classification(n=14, d=2, labels=("b", "a"), seed=seed)
